@@ -43,6 +43,7 @@ CFG = Cfg(max_obj=5, min_obj=2, max_terms=2, max_target=3, max_exp=2,
 def st_case(draw):
     base = draw(st_expr_case(CFG))
     return {"terms": base["terms"], "targets": base["targets"],
+            "poly": draw(st.integers(0, 5)) == 0,
             "explicit": base["explicit"], "spin": base["spin"],
             "mseed": draw(st.integers(0, 2**31))}
 
@@ -77,6 +78,31 @@ def run_case(case):
     terms = [t for t in terms if t != 0]
     if not terms:
         raise BadCase("zero")
+    explicit = case["explicit"]
+    if case.get("poly"):
+        # a delta inside an *unexpanded* sum: T = R * D * Y  ->
+        # R * (D * Y + q_{labels of D and Y}); the delta restricts one
+        # summand only
+        t0 = case["terms"][0]
+        dl = [o for o in t0["objs"] if o["k"] == "K" and o.get("exp", 1) == 1]
+        nd = [o for o in t0["objs"] if o["k"] in ("A", "S", "T", "N")
+              and o.get("exp", 1) == 1]
+        if dl and nd and terms and build_term(t0) != 0:
+            from ..gen import build_obj
+            D, Y = build_obj(dl[0]), build_obj(nd[0])
+            lbls = []
+            for l in dl[0]["u"] + nd[0].get("u", []) + nd[0].get("l", []):
+                if l not in lbls:
+                    lbls.append(l)
+            q = NonSymmetricTensor("q", syms(lbls))
+            rest = build_term({**t0, "objs": [o for o in t0["objs"]
+                                              if o is not dl[0]
+                                              and o is not nd[0]]})
+            if D != 0 and D != 1:
+                terms[0] = rest * Add(D * Y, q)
+                explicit = True
+                if not isinstance(terms[0], Add):
+                    r.cls("delta_inside_polynomial")
     expr = Add(*terms)
     has_delta = bool(S(expr).atoms(KroneckerDelta))
     # precondition of the statement: every summed index sits on a non-delta
@@ -91,7 +117,7 @@ def run_case(case):
                 raise BadCase("summed index on deltas only")
     r.sample = f"evaluate_deltas({expr}) targets={targets} explicit={case['explicit']}"
     outs = []
-    if not case["explicit"]:
+    if not explicit:
         ok, o1 = lib_call(r, "einstein", evaluate_deltas, expr)
         if ok:
             outs.append(("einstein", o1))
